@@ -715,8 +715,21 @@ def explore_async(ctx, h, label, nhist, nops, ncuts):
                 ln, seed = r.choice([r.randrange(1, 40), r.randrange(1, 300), r.randrange(300, 2500)]), r.randrange(1, 250)
                 body.append("put %d %s %d %d%s" % (d, k.hex(), ln, seed, fl)); st[d][k] = (ln, seed)
             states.add(state_digest(st))
+        if hi == 0:
+            # the store outgrows its first free-space bitmap (4096 bytes cover 4 MB): the bitmap is doubled and moved, the log
+            # holds the records of that move (the history is then only scanned for record kinds, growth re-bases the log)
+            body = ["put 1 %s 320000 %d" % (b"big%02d" % j, 7 + j) for j in range(14)] + body
         ops += body + ["snap %s %s" % (pre, walp), "close"]
         rc, out, err = C.run_lines([h], ops, timeout=300)
+        if rc == 0 and len(out) == len(ops) and os.path.exists(walp):
+            kinds = [op for (_, _, op) in parse_log(open(walp, "rb").read())]
+            ctx.hist("async:log-records", len(kinds))
+            if COPY in kinds:
+                # replay_idempotent / checkpoint_kill_recovers (C04) are theorems about logs without copy records: a copy reads its
+                # source from the main file at replay time, a second replay after a killed checkpoint reads what the first one wrote
+                ctx.corr_broken.append("a log written by the store contains a WBCOPY record (history %s, %d of %d records): replaying such a log "
+                                       "twice is not idempotent; the recovery theorems cover logs of WRITE/SET/RESIZE records only" % (
+                                           tag, kinds.count(COPY), len(kinds)))
         nb = len(ops) - len(body) - 2
         if rc != 0 or len(out) != len(ops) or any(field(o, "rebased") not in (None, "0") for o in out[nb:]):
             ctx.hist("async:history-dropped")
